@@ -3,9 +3,12 @@ package dom
 import (
 	"encoding/json"
 	"errors"
+	"fmt"
 	"sort"
 	"strconv"
 	"strings"
+	"sync"
+	"time"
 
 	res "github.com/jirenius/go-res"
 	"github.com/jirenius/go-res/store"
@@ -134,6 +137,9 @@ func (d *storeDom) Gen(r *gen.R, tier string, emit func(string)) {
 			break
 		}
 	}
+	emit(wire.Line("reset"))
+	emit(wire.Line("getrace", "model"))
+	emit(wire.Line("getrace", "coll"))
 	// 2. random histories over 3 ids, all handler configurations
 	blocks := 400
 	if tier == "thorough" {
@@ -214,6 +220,88 @@ func (d *storeDom) Gen(r *gen.R, tier string, emit func(string)) {
 			}
 		}
 	}
+}
+
+// storeGetRace: a get request is being answered (its Transform is still running) while the
+// value is updated from another goroutine. The handler's read transaction must keep the writer
+// out until the response is on its way: the client sees the response first, then the event.
+func storeGetRace(model bool) string {
+	st := mockstore.NewStore()
+	var v1, v2 interface{}
+	typ := res.Collection
+	if model {
+		typ = res.Model
+		v1 = map[string]json.RawMessage{"n": json.RawMessage(`1`)}
+		v2 = map[string]json.RawMessage{"n": json.RawMessage(`2`)}
+	} else {
+		v1 = []json.RawMessage{json.RawMessage(`1`)}
+		v2 = []json.RawMessage{json.RawMessage(`1`), json.RawMessage(`2`)}
+	}
+	st.Add("a", v1)
+	inTransform := make(chan struct{}, 4)
+	proceed := make(chan struct{})
+	first := true
+	var mu sync.Mutex
+	h := store.Handler{Store: st, Transformer: store.IDTransformer("id", func(id string, v interface{}) (interface{}, error) {
+		mu.Lock()
+		f := first
+		first = false
+		mu.Unlock()
+		if f {
+			inTransform <- struct{}{}
+			select {
+			case <-proceed:
+			case <-time.After(2 * time.Second):
+			}
+		}
+		return v, nil
+	})}
+	s := res.NewService("svc")
+	s.SetLogger(svc.NopLogger{})
+	s.Handle("item.$id", typ, h)
+	run, err := svc.Start(s)
+	if err != nil {
+		return "start-failed"
+	}
+	defer run.Stop()
+	from := run.C.NumPubs()
+	run.C.Deliver("get.svc.item.a", "_INBOX.gr", nil)
+	select {
+	case <-inTransform:
+	case <-time.After(2 * time.Second):
+		close(proceed)
+		return "transform-not-called"
+	}
+	updated := make(chan struct{})
+	go func() {
+		txn := st.Write("a")
+		txn.Update(v2)
+		txn.Close()
+		close(updated)
+	}()
+	select {
+	case <-updated: // the writer got through while the get was being answered
+	case <-time.After(60 * time.Millisecond):
+	}
+	close(proceed)
+	select {
+	case <-updated:
+	case <-time.After(3 * time.Second):
+		return "update-hung"
+	}
+	run.C.WaitPub(from, func(p recconn.Pub) bool { return p.Subject == "_INBOX.gr" }, 2000)
+	time.Sleep(5 * time.Millisecond)
+	_, pubs := run.C.Snapshot()
+	var order []string
+	for _, p := range pubs[from:] {
+		switch {
+		case p.Subject == "_INBOX.gr":
+			order = append(order, "response")
+		case strings.HasPrefix(p.Subject, "event.svc.item.a."):
+			order = append(order, "event")
+		}
+	}
+	return "getrace order=" + strings.Join(order, ",")
 }
 
 func rawList(items []string) []json.RawMessage {
@@ -323,7 +411,9 @@ func (d *storeDom) Exec(a []string) string {
 			d.model = a[1] == "model"
 			d.trans = a[2] == "T" || a[2] == "X"
 			d.st = mockstore.NewStore()
-			h := store.Handler{Store: d.st}
+			// the handler reads through a store that reports a missing value with an error WRAPPING
+			// store.ErrNotFound, as the store contract allows
+			h := store.Handler{Store: wrapNotFoundStore{d.st}}
 			if a[2] == "X" {
 				// a transformer that changes the served representation
 				h.Transformer = store.IDTransformer("id", func(id string, v interface{}) (interface{}, error) {
@@ -379,6 +469,8 @@ func (d *storeDom) Exec(a []string) string {
 			}
 			d.run = run
 			return "ok"
+		case "getrace":
+			return storeGetRace(a[1] == "model")
 		case "create", "update", "delete":
 			from := d.run.C.NumPubs()
 			err, panicked := func() (err error, panicked bool) {
@@ -453,4 +545,19 @@ func (d *storeDom) Exec(a []string) string {
 		}
 		return "bad-op"
 	})
+}
+
+// wrapNotFoundStore is a store whose read transactions wrap the not-found error.
+type wrapNotFoundStore struct{ *mockstore.Store }
+
+type wrapReadTxn struct{ store.ReadTxn }
+
+func (s wrapNotFoundStore) Read(id string) store.ReadTxn { return wrapReadTxn{s.Store.Read(id)} }
+
+func (t wrapReadTxn) Value() (interface{}, error) {
+	v, err := t.ReadTxn.Value()
+	if err != nil && errors.Is(err, store.ErrNotFound) {
+		return nil, fmt.Errorf("value of %q: %w", t.ID(), err)
+	}
+	return v, err
 }
